@@ -31,102 +31,104 @@ const shardID = 1
 
 // Cfg is the per run (swarm) configuration, drawn from the head of the tape.
 type Cfg struct {
-	Hosts        int
-	Voters       int // initial voting members (the other hosts may be added later)
-	NonVoting    int // how many of the hosts start as non-voting (joined later)
-	SMKind       int
-	Steps        int
-	Clients      int
-	Keys         int
-	TickNum      int // a tick is chosen with probability TickNum/TickDen per step
-	TickDen      int
-	ElectionRTT  uint64
-	HeartbeatRTT uint64
-	CheckQuorum  bool
-	PreVote      bool
-	Quiesce      bool
-	NotifyCommit bool
+	Hosts              int
+	Voters             int // initial voting members (the other hosts may be added later)
+	NonVoting          int // how many of the hosts start as non-voting (joined later)
+	SMKind             int
+	Steps              int
+	Clients            int
+	Keys               int
+	TickNum            int // a tick is chosen with probability TickNum/TickDen per step
+	TickDen            int
+	ElectionRTT        uint64
+	HeartbeatRTT       uint64
+	CheckQuorum        bool
+	PreVote            bool
+	Quiesce            bool
+	NotifyCommit       bool
 	SnapshotEntries    uint64
 	CompactionOverhead uint64
-	Compress     bool
-	OrderedCC    bool
-	MaxInMem     uint64
+	Compress           bool
+	OrderedCC          bool
+	MaxInMem           uint64
 	// fault rates, per mille per step (0 = never)
 	PDrop, PDup, PReorder, PPartition, PHeal, PCrash, PRestart, PStop int
-	PLeaderTransfer, PSnapshotReq, PMembership                      int
-	FSYield    int // per mille chance that a mutating FS op parks the task
-	SMYield    int // per mille chance that an SM method entry parks the task
-	TornTail   bool
-	Sessions   bool // clients use registered sessions and retry
-	ReadMix    int  // per cent of client ops that are reads
-	TimeoutTicks int
-	SyncInterval int // periodic Sync task of on-disk state machines, in ticks
-	LRUSize      int
-	LogBuf       int
-	TanLogSize   int
-	OpsPerClient int
-	ClientRate   int // relative rate of client actions (10 = as likely as 1/8 of pending work)
-	Pad        int
+	PLeaderTransfer, PSnapshotReq, PMembership                        int
+	FSYield                                                           int // per mille chance that a mutating FS op parks the task
+	SMYield                                                           int // per mille chance that an SM method entry parks the task
+	TornTail                                                          bool
+	Sessions                                                          bool // clients use registered sessions and retry
+	ReadMix                                                           int  // per cent of client ops that are reads
+	TimeoutTicks                                                      int
+	SyncInterval                                                      int // periodic Sync task of on-disk state machines, in ticks
+	LRUSize                                                           int
+	LogBuf                                                            int
+	TanLogSize                                                        int
+	OpsPerClient                                                      int
+	GroupSplit                                                        int // percent of partitions that isolate a pair of hosts from all others
+	MemberBias                                                        int // 0 any membership operation, 1 mostly non-voting adds, 2 mostly witness adds
+	ClientRate                                                        int // relative rate of client actions (10 = as likely as 1/8 of pending work)
+	Pad                                                               int
 }
 
 // Host is one simulated machine.
 type Host struct {
-	id           int
-	replicaID    uint64
-	addr         string
-	disk         *simfs.Disk
-	inc          int
-	up           bool
-	booting      bool
-	nh           *dragonboat.NodeHost
-	drv          *dragonboat.VerifDriver
-	tr           *transport.Transport
-	rawTransport *simTransport
-	busy         map[string]*coro.Task
-	sm           *SMInst
-	ticks        int64
-	stopped      bool // shard stopped gracefully (NodeHost still up)
-	started      bool // StartReplica was called in this incarnation
-	joined       bool // member of the shard (initial or added)
-	initial      bool // initial member
-	removed      bool
-	selfRemoved  bool
+	id            int
+	replicaID     uint64
+	addr          string
+	disk          *simfs.Disk
+	inc           int
+	up            bool
+	booting       bool
+	nh            *dragonboat.NodeHost
+	drv           *dragonboat.VerifDriver
+	tr            *transport.Transport
+	rawTransport  *simTransport
+	busy          map[string]*coro.Task
+	sm            *SMInst
+	ticks         int64
+	stopped       bool // shard stopped gracefully (NodeHost still up)
+	started       bool // StartReplica was called in this incarnation
+	joined        bool // member of the shard (initial or added)
+	initial       bool // initial member
+	removed       bool
+	selfRemoved   bool
 	crashedBefore bool
-	imported     bool
-	snapDir      string
-	role         int  // current role as far as the harness knows
-	joinRole     int  // role it was first added with: what its config must say
-	addIssued    bool // an add request for it is outstanding or of unknown outcome
+	imported      bool
+	snapDir       string
+	role          int  // current role as far as the harness knows
+	joinRole      int  // role it was first added with: what its config must say
+	addIssued     bool // an add request for it is outstanding or of unknown outcome
 }
 
 // Sim is one simulated run.
 type Sim struct {
-	ctx   *runner.Ctx
-	src   *choice.Source
-	ex    *coro.Exec
-	cfg   Cfg
-	hosts []*Host
-	net   *Net
-	addrToHost map[string]int
-	trToHost   map[*transport.Transport]int
-	clients []*Client
-	step    int
-	seqno   int64 // global event sequence number (history stamps)
-	ticks   int64
-	faultsOn bool
-	pendingAsync []asyncJob
-	admin   []*adminReq
-	orc   *oracles
-	initialMembers map[uint64]dragonboat.Target
-	nextWID uint64
-	importMode bool
-	exportIndex uint64
-	expected *exported
-	expectedMembers map[uint64]string
+	ctx                *runner.Ctx
+	src                *choice.Source
+	ex                 *coro.Exec
+	cfg                Cfg
+	hosts              []*Host
+	net                *Net
+	addrToHost         map[string]int
+	trToHost           map[*transport.Transport]int
+	clients            []*Client
+	step               int
+	seqno              int64 // global event sequence number (history stamps)
+	ticks              int64
+	faultsOn           bool
+	pendingAsync       []asyncJob
+	admin              []*adminReq
+	orc                *oracles
+	initialMembers     map[uint64]dragonboat.Target
+	nextWID            uint64
+	importMode         bool
+	exportIndex        uint64
+	expected           *exported
+	expectedMembers    map[uint64]string
 	importFlipAccepted bool
-	flipBit, flipLen int
-	sessRand *auxRand
-	stateSig uint64
+	flipBit, flipLen   int
+	sessRand           *auxRand
+	stateSig           uint64
 }
 
 type asyncJob struct {
@@ -190,6 +192,8 @@ func drawCfg(ctx *runner.Ctx) Cfg {
 	c.LRUSize = p("lru", pick(s, 4096, 4096, 2, 3))
 	c.SyncInterval = p("syncinterval", pick(s, 180000, 25, 80))
 	c.ClientRate = p("clientrate", pick(s, 10, 3, 30))
+	c.GroupSplit = p("groupsplit", pick(s, 0, 0, 30))
+	c.MemberBias = p("memberbias", 0)
 	c.Pad = p("pad", pick(s, 0, 0, 40, 300))
 	if c.Hosts < 1 {
 		c.Hosts = 1
@@ -234,7 +238,10 @@ func (s *Sim) nodeHostConfig(h *Host) config.NodeHostConfig {
 		NodeHostDir:    "/nh",
 		RTTMillisecond: 1,
 		RaftAddress:    h.addr,
-		NotifyCommit:   s.cfg.NotifyCommit,
+		// by default a random UUID is generated on the first start (and written
+		// to the host's id file): fixed per host, a function of the run
+		NodeHostID:   s.nodeHostID(h),
+		NotifyCommit: s.cfg.NotifyCommit,
 		Expert: config.ExpertConfig{
 			FS:               h.disk.View(),
 			TransportFactory: &simTransportFactory{sim: s, host: h.id},
@@ -244,6 +251,12 @@ func (s *Sim) nodeHostConfig(h *Host) config.NodeHostConfig {
 				SnapshotShards: 2, CloseShards: 1},
 		},
 	}
+}
+
+func (s *Sim) nodeHostID(h *Host) string {
+	a := choice.Mix(s.src.Aux^0x6e686964, uint64(h.id))
+	b := choice.Mix(s.src.Aux^0x6e686964, uint64(h.id), 1)
+	return fmt.Sprintf("%08x-%04x-4%03x-8%03x-%012x", uint32(a>>32), uint16(a>>16), uint16(a)&0xfff, uint16(b>>48)&0xfff, b&0xffffffffffff)
 }
 
 // auxSource is the random source handed to client.NewSession.
@@ -391,10 +404,12 @@ func (s *Sim) hookSendBatch(t *transport.Transport, addr string, mb pb.MessageBa
 	}
 	to, ok := s.addrToHost[addr]
 	if !ok {
+		s.ctx.Tracef("send from h%d to unknown address %q", from+1, addr)
 		return false
 	}
 	h := s.hosts[from]
 	if !h.up && !h.booting || h.tr != t {
+		s.ctx.Tracef("send by a dead incarnation of h%d", from+1)
 		return false // a dead incarnation is talking
 	}
 	s.sendBatch(from, to, mb)
@@ -408,6 +423,7 @@ func (s *Sim) sendBatch(from, to int, mb pb.MessageBatch) {
 	if len(mb.Requests) > 0 {
 		typ = mb.Requests[0].Type
 	}
+	s.ctx.Tracef("send h%d->h%d %s", from+1, to+1, typ)
 	s.net.push(laneKey{from: from, to: to}, frame{data: data, typ: typ})
 	s.ctx.Count("ev.send", 1)
 }
@@ -480,6 +496,10 @@ func newSim(ctx *runner.Ctx, tweak func(c *Cfg)) *Sim {
 		tweak(&s.cfg)
 	}
 	ctx.Tracef("cfg %s", s.cfg.String())
+	LogSink = nil
+	if showLogs && ctx.Tracing {
+		LogSink = func(pkg, level, msg string) { ctx.Tracef("log %s %s %s", pkg, level, msg) }
+	}
 	SetProcessRand(&auxRand{r: choice.NewSplitMix(ctx.Src.Aux)})
 	s.ex = coro.New()
 	// with NotifyCommit every request owns a bridging goroutine (ResultC), so
@@ -565,6 +585,9 @@ func (s *Sim) runTask(name string, h *Host, owner string, fn func()) *coro.Task 
 		}
 	}
 	t = s.ex.Start(name, hid, owner, fn)
+	if taskTrace {
+		s.ctx.Tracef("task %s -> state=%d blocked=%t at=%s | %s", name, t.State(), t.Blocked, t.Point, s.ex.Describe())
+	}
 	if h != nil && owner != "" && t.State() != coro.Done && h.inc == inc && h.busy != nil {
 		h.busy[owner] = t
 		t.OnDone = func(t *coro.Task) {
@@ -917,7 +940,19 @@ func (s *Sim) maybeFaults() {
 	if n > 1 && src.Chance(c.PPartition, 1000) {
 		a := src.Intn(n)
 		b := src.Intn(n)
-		if a != b {
+		if c.GroupSplit > 0 && src.Chance(c.GroupSplit, 100) {
+			// isolate a together with b from everybody else
+			for x := 0; x < n; x++ {
+				if x == a || x == b {
+					continue
+				}
+				for _, y := range []int{a, b} {
+					s.net.cut[x][y], s.net.cut[y][x] = true, true
+				}
+			}
+			s.ctx.Count("fault.partition_group", 1)
+			s.ctx.Ev("split", uint64(a), uint64(b))
+		} else if a != b {
 			s.net.cut[a][b] = true
 			sym := src.Intn(3) != 0
 			if sym {
@@ -1020,6 +1055,8 @@ func (s *Sim) restartHost(h *Host) {
 }
 
 var fsTrace = os.Getenv("VERIF_FSTRACE") != ""
+var showLogs = os.Getenv("VERIF_LOGS") != ""
+var taskTrace = os.Getenv("VERIF_TASKTRACE") != ""
 
 // ---- simfs.Env ----
 
@@ -1075,7 +1112,7 @@ func (s *Sim) finalPhase() {
 		}
 	}
 	for _, h := range s.hosts {
-		if h.up && h.stopped && h.joined && !h.removed {
+		if h.up && h.stopped && h.joined && !h.removed && h.busy["boot"] == nil {
 			s.restartShard(h)
 		}
 	}
@@ -1090,6 +1127,12 @@ func (s *Sim) finalPhase() {
 		s.fairRounds(int(s.cfg.TimeoutTicks)+300, func() bool { return s.noClientWaiting() })
 		return
 	}
+	// requests are submitted from the start of the fair period (a shard that
+	// went quiescent without a leader only wakes up when it is asked to do
+	// something); those issued before a leader exists may fail and are retried
+	for _, c := range s.clients {
+		c.beginFinal()
+	}
 	if !s.fairRounds(budget, func() bool { return s.orc.stableLeader() }) {
 		if !s.ctx.Violated() {
 			s.orc.livenessFailed("no leader")
@@ -1097,9 +1140,6 @@ func (s *Sim) finalPhase() {
 		return
 	}
 	s.ctx.Count("probe.final_leader", 1)
-	for _, c := range s.clients {
-		c.beginFinal()
-	}
 	if !s.fairRounds(budget, s.finalDone) {
 		if !s.ctx.Violated() {
 			s.orc.livenessFailed("requests / catch-up")
@@ -1113,6 +1153,14 @@ func (s *Sim) finalPhase() {
 // all pending work is drained in FIFO order, until done() or the budget ends.
 func (s *Sim) fairRounds(budget int, done func() bool) bool {
 	for round := 0; round < budget && !s.ctx.Violated(); round++ {
+		for _, h := range s.hosts {
+			// a process that fail-stopped on a panic during the fair phase is
+			// started again by its supervisor
+			if !h.up && !h.booting && !h.removed {
+				s.ctx.Count("probe.final_restart_after_panic", 1)
+				s.restartHost(h)
+			}
+		}
 		for _, h := range s.upHosts() {
 			s.tickHost(h)
 			if h.stopped && h.joined && !h.removed && h.busy["boot"] == nil {
